@@ -137,6 +137,10 @@ def tensor_configs(ctx, rng):
                     sp = odl.tensor_space(shape, dtype=dt, exponent=p, **kw)
                     desc = {'kind': 'tensor', 'shape': shape, 'base': base, 'p': p, 'dtype': dt}
                     yield 'tensor;%s;%s;%s;p=%s' % (dt, util.size_regime(int(np.prod(shape))), wt, pclass(p)), sp, desc
+                    if wt == 'array' and len(shape) >= 2 and dt in ('float64', 'complex128'):
+                        # the weight array itself in Fortran order (elements come in both orders, see check_space)
+                        spf = odl.tensor_space(shape, dtype=dt, exponent=p, weighting=np.asfortranarray(base))
+                        yield 'tensor;%s;%s;array,F-ordered-weights;p=%s' % (dt, util.size_regime(int(np.prod(shape))), pclass(p)), spf, dict(desc)
     # custom inner / norm / dist callables
     for dt in ('float64', 'complex128'):
         w = np.array([1.0, 2.0, 0.5, 3.0])
@@ -201,6 +205,25 @@ def discr_configs(ctx, rng):
         desc = {'kind': 'discr', 'shape': (3, 3), 'base': 0.5, 'p': 2.0, 'fractions': discr_fractions(sp),
                 'volume': 3.0, 'default_w': True, 'dtype': dt}
         yield 'discr;%s;<100;w=default;bdry=True;p=2' % dt, sp, desc
+
+
+def fractional_bdry_configs(ctx, rng):
+    """Uniform grids inside a domain whose limits are neither on the outer nodes nor half a cell outside them: boundary-cell
+    fractions other than 1/2 and 1 (uniform_partition_fromgrid with explicit limits)."""
+    for dt in ('float64', 'complex128'):
+        for nd, p in itertools.product((1, 2), (2.0, 1.0, 3.5, INF)):
+            shape = (5, 4)[:nd]
+            grid = odl.uniform_grid([0.1, 1.0][:nd], [0.9, 1.6][:nd], shape)
+            stride = grid.stride
+            fl, fr = np.array([1.2, 0.7][:nd]), np.array([0.9, 1.45][:nd])       # boundary cell fractions
+            mn = grid.min_pt - (fl - 0.5) * stride
+            mx = grid.max_pt + (fr - 0.5) * stride
+            part = odl.uniform_partition_fromgrid(grid, min_pt=mn, max_pt=mx)
+            sp = odl.uniform_discr_frompartition(part, dtype=dt, exponent=p)
+            base = 1.0 if p == INF else float(np.prod(stride))
+            desc = {'kind': 'discr', 'shape': shape, 'base': base, 'p': p, 'fractions': discr_fractions(sp),
+                    'volume': float(np.prod(mx - mn)), 'default_w': True, 'dtype': dt}
+            yield 'discr;%s;<100;w=default;bdry=fractional;p=%s' % (dt, pclass(p)), sp, desc
 
 
 def pspace_configs(ctx, rng):
@@ -292,7 +315,7 @@ def check_space(ctx, cls, sp, model, rng):
     p = d.get('p', 2.0)
     cfg = cls
     for rep in range(ctx.reps(2, 10)):
-        x = rnd(sp, rng, order_flip=False)
+        x = rnd(sp, rng, order_flip=(rep % 2 == 1))
         y = rnd(sp, rng, order_flip=(rep % 2 == 0))
         z = rnd(sp, rng, order_flip=(rep % 3 == 0))
         xa, ya, za = arrs(sp, x), arrs(sp, y), arrs(sp, z)
@@ -388,7 +411,7 @@ def run(ctx):
     cov.arm()
     rng = ctx.crng('configs')
     i = 0
-    for gen in (tensor_configs, discr_configs, pspace_configs):
+    for gen in (tensor_configs, discr_configs, fractional_bdry_configs, pspace_configs):
         for cls, sp, desc in gen(ctx, rng):
             i += 1
             ctx.require(cls)
